@@ -101,3 +101,146 @@ def setup():
         print("[setup] miri warm-up failed:\n" + r.stdout[-2000:])
         return False
     return True
+
+
+# ------------------------------------------------------------------ C18
+
+def _collect_images(paths):
+    """paths: shard result files. Returns {group: {hash: [process labels]}} and number of processes read."""
+    groups, n = {}, 0
+    for p in paths:
+        try:
+            d = json.load(open(p))
+        except Exception:  # noqa: BLE001
+            continue
+        n += 1
+        for k, h in (d.get("notes", {}).get("images") or {}).items():
+            groups.setdefault(k, {}).setdefault(h, []).append(os.path.basename(p))
+    return groups, n
+
+
+def _run_pool(cmds, envs, concurrency, timeout):
+    """Run commands with bounded concurrency. Returns list of return codes (None = timeout)."""
+    rcs = [None] * len(cmds)
+    running = []
+    i = 0
+    deadline = time.time() + timeout
+    while i < len(cmds) or running:
+        while i < len(cmds) and len(running) < concurrency:
+            p = subprocess.Popen(cmds[i], env=envs[i], stdout=subprocess.DEVNULL, stderr=subprocess.PIPE)
+            running.append((i, p))
+            i += 1
+        still = []
+        for j, p in running:
+            rc = p.poll()
+            if rc is None:
+                if time.time() > deadline:
+                    p.kill()
+                    p.wait()
+                else:
+                    still.append((j, p))
+            else:
+                rcs[j] = (rc, (p.stderr.read() or b"")[-1500:].decode("utf8", "replace"))
+        running = still
+        if running:
+            time.sleep(0.005)
+    return rcs
+
+
+def c18_cross(prop, tier, seed, workdir, cfg):
+    cov, viol, reasons = {}, [], []
+    binary = os.path.join(HARNESS, "target", "chk", "vmon")
+    # many short processes: the fraction table is initialised once per process, HashMap seeds differ per process
+    n = 200 if tier == "quick" else 5000
+    sdir = os.path.join(workdir, "short")
+    os.makedirs(sdir, exist_ok=True)
+    cmds, envs = [], []
+    for i in range(n):
+        out = os.path.join(sdir, f"p{i}.json")
+        cmds.append([binary, "run", "C18", "--tier", "quick", "--seed", str(seed + i), "--shard", f"{i % 16}/16", "--profile", "chk", "--out", out])
+        envs.append(dict(ENV, VERIF_C18_MODE="short"))
+    rcs = _run_pool(cmds, envs, 16, 600 if tier == "quick" else 3600)
+    died = [r for r in rcs if r is None or r[0] != 0]
+    if died:
+        reasons.append(f"{len(died)} of {n} short C18 processes did not finish cleanly: {died[0]}")
+    paths = [os.path.join(sdir, f"p{i}.json") for i in range(n)]
+    paths += [os.path.join(workdir, f) for f in os.listdir(workdir) if f.endswith(".json") and (f.startswith("chk.") or f.startswith("rel."))]
+    groups, nproc = _collect_images(paths)
+    differing = {k: v for k, v in groups.items() if len(v) > 1}
+    threads_seen = set()
+    for p in paths[:n]:
+        try:
+            d = json.load(open(p))
+            for k in d["counters"]:
+                if k.startswith("first_thread_at_table:"):
+                    threads_seen.add(k)
+        except Exception:  # noqa: BLE001
+            pass
+        for ext in ("", ".hashes"):
+            try:
+                os.remove(p + ext)
+            except OSError:
+                pass
+    cov.update({"processes_compared": nproc, "short_processes": n, "groups_compared_across_processes": len(groups),
+                "groups_with_more_than_one_image": len(differing), "distinct_first_arriving_threads": len(threads_seen)})
+    for k, v in sorted(differing.items())[:5]:
+        viol.append({"sub": "cross_process", "cause": "different_results_in_different_processes",
+                     "signature": "cross_process|different_results_in_different_processes",
+                     "message": f"group {k} (input id/config id of the fixed pool) has images {dict((h, len(ps)) for h, ps in v.items())} across processes",
+                     "case": {"kind": "cross_process", "input": k, "ext": 0, "conv": "n/a", "params": {"hashes": {h: ps[:3] for h, ps in v.items()}}},
+                     "profiles": {"chk"}, "count": len(differing)})
+        break
+    if nproc < n // 2:
+        reasons.append(f"only {nproc} processes produced images")
+    # Miri: data races / UB on the shared parser and the lazily initialised table, several schedules
+    seeds = 4 if tier == "quick" else 32
+    t0 = time.time()
+    res = miri_run("C18", tier, seed, workdir, 1, 1200 if tier == "quick" else 5400,
+                   extra_env={"VERIF_C18_MODE": "tiny"}, miriflags=f"-Zmiri-many-seeds=0..{seeds}")
+    mcov, mviol, mreasons = _fold_miri(prop, res, "miri")
+    mcov["miri_schedules"] = seeds
+    mcov["miri_wall_s"] = round(time.time() - t0, 1)
+    cov.update(mcov)
+    viol += mviol
+    reasons += mreasons
+    if tier == "thorough":
+        tcov, tviol, treasons = _tsan(prop, seed, workdir, 500)
+        cov.update(tcov)
+        viol += tviol
+        reasons += treasons
+    return cov, viol, reasons
+
+
+def _tsan(prop, seed, workdir, nproc):
+    cov, viol, reasons = {}, [], []
+    env = dict(ENV, RUSTFLAGS="-Zsanitizer=thread", CARGO_TARGET_DIR=os.path.join(HARNESS, "target", "tsan"))
+    t0 = time.time()
+    b = subprocess.run(["cargo", "+nightly", "build", "--offline", "--quiet", "-Zbuild-std", "--target", "x86_64-unknown-linux-gnu", "--profile", "chk"],
+                       cwd=HARNESS, env=env, stdout=subprocess.PIPE, stderr=subprocess.STDOUT, text=True)
+    if b.returncode != 0:
+        return cov, viol, [f"TSan build failed: {b.stdout[-400:]}"]
+    binary = os.path.join(HARNESS, "target", "tsan", "x86_64-unknown-linux-gnu", "chk", "vmon")
+    tdir = os.path.join(workdir, "tsan")
+    os.makedirs(tdir, exist_ok=True)
+    cmds, envs = [], []
+    for i in range(nproc):
+        cmds.append([binary, "run", "C18", "--tier", "quick", "--seed", str(seed + i), "--shard", f"{i % 16}/16", "--profile", "tsan", "--out", os.path.join(tdir, f"t{i}.json")])
+        envs.append(dict(ENV, VERIF_C18_MODE="short", TSAN_OPTIONS="halt_on_error=1 exitcode=66 second_deadlock_stack=1"))
+    rcs = _run_pool(cmds, envs, 16, 3600)
+    reports = [r for r in rcs if r is not None and r[0] == 66]
+    other = [r for r in rcs if r is None or r[0] not in (0, 66)]
+    cov.update({"tsan_processes": nproc, "tsan_reports": len(reports), "tsan_build_and_run_s": round(time.time() - t0, 1)})
+    if reports:
+        tail = reports[0][1]
+        first = next((l for l in tail.splitlines() if "WARNING: ThreadSanitizer" in l), "ThreadSanitizer report")
+        viol.append({"sub": "tsan", "cause": "data_race", "signature": "tsan|" + first.strip()[:100], "message": tail,
+                     "case": {"kind": "tsan", "input": "", "ext": 0, "conv": "n/a", "params": None}, "profiles": {"tsan"}, "count": len(reports)})
+    if other:
+        reasons.append(f"{len(other)} TSan processes failed for another reason: {other[0]}")
+    for i in range(nproc):
+        for ext in ("", ".hashes"):
+            try:
+                os.remove(os.path.join(tdir, f"t{i}.json") + ext)
+            except OSError:
+                pass
+    return cov, viol, reasons
